@@ -1,11 +1,18 @@
 #!/bin/bash
 # Build the framework from files on disk only (offline): generated facts, Lean library (models,
 # proofs, property theorems, driver), kernel shims for the current working tree of /repo.
-set -e
 cd "$(dirname "$0")"
 export PYTHONDONTWRITEBYTECODE=1
-/venv/bin/python harness/translate.py
-( cd lean && lake build 2>&1 | grep -E "error|✖|Build completed|warning: declaration uses" | tail -20 )
-/venv/bin/python harness/corebuild.py
-/venv/bin/python harness/corebuild.py --asan || echo "note: sanitizer build of the kernels failed (C17 search will say so)"
+/venv/bin/python harness/translate.py || exit 1
+cd lean
+lake build PyamgV.Driver.Main 2>&1 | grep -E "^error|✖|Build completed" | tail -5
+[ "${PIPESTATUS[0]}" = 0 ] || { echo "setup: the Lean driver does not build"; exit 1; }
+for f in PyamgV/Props/C*.lean; do
+  m=$(basename "$f" .lean)
+  lake build PyamgV.Props.$m 2>&1 | grep -E "^error|✖" | head -5
+  [ "${PIPESTATUS[0]}" = 0 ] || echo "setup: note: PyamgV.Props.$m does not build (its check will report it)"
+done
+cd ..
+/venv/bin/python harness/corebuild.py || exit 1
+/venv/bin/python harness/corebuild.py --asan || echo "setup: note: sanitizer build of the kernels failed (the C17 search will say so)"
 echo "setup done"
